@@ -322,3 +322,170 @@ Proof.
   - cbn [rstep]. unfold default. rewrite D. reflexivity.
   - destruct (compile_by_module info st m I (or_introl Hm)) as [st' [A [_ [_ B]]]]. rewrite (B Hm) in A. exact A.
 Qed.
+
+(* ================================================================ Part 3: device selection *)
+(* the table entry a walker's <group>_module selects (the first half of <group>_module_call) *)
+Definition sel_entry (k : pdk) (g : group) (prm : pparams) : sel entry :=
+  match k, g with
+  | Sky130, GMos => sky_mos_module prm
+  | Sky130, GRes => get_exact sky130_ress (pm_model prm)
+  | Sky130, GCap => get_exact sky130_caps (pm_model prm)
+  | Sky130, GDiode => get_exact sky130_diodes (pm_model prm)
+  | Sky130, GBjt => get_exact sky130_bjts (pm_model prm)
+  | Gf180, GMos => gf_mos_module prm
+  | Gf180, GRes => get_exact gf180_ress (pm_model prm)
+  | Gf180, GCap => get_exact gf180_caps (pm_model prm)
+  | Gf180, GDiode => get_exact gf180_diodes (pm_model prm)
+  | Gf180, GBjt => get_exact gf180_bjts (pm_model prm)
+  | Asap7, GMos => of_opt (find (fun e => strs_eqb (fst e) [pm_tp prm; pm_vth prm]) asap7_mos_modules) ENoDevice
+  | Sample, GMos =>
+      of_opt (find (fun e => strs_eqb (fst e) [if String.eqb (pm_tp prm) "MosType.PMOS" then "MosType.PMOS" else "MosType.NMOS"])
+                   sample_mos_modules) EEscape
+  | _, _ => SErr EEscape
+  end.
+
+Lemma mkcall_ok e cls f cs : mkcall e cls f = SOk cs -> cs = (snd e, f) /\ dev_class (snd e) = cls.
+Proof.
+  unfold mkcall. destruct (String.eqb (dev_class (snd e)) cls) eqn:E; [|discriminate].
+  intros H. inversion H. split; [reflexivity|apply String.eqb_eq; exact E].
+Qed.
+
+Lemma mkcall_same e cls f : dev_class (snd e) = cls -> mkcall e cls f = SOk (snd e, f).
+Proof. intros H. unfold mkcall. rewrite H, String.eqb_refl. reflexivity. Qed.
+
+Ltac step_bind H :=
+  match type of H with
+  | sbind ?r _ = SOk _ => let E := fresh "E" in destruct r eqn:E; cbn [sbind] in H; [|discriminate H]
+  end.
+
+Ltac fin_call H :=
+  repeat (first [ step_bind H
+                | match type of H with
+                  | (if ?c then _ else _) = SOk _ => destruct c
+                  | (match ?x with _ => _ end) = SOk _ => destruct x
+                  end ]);
+  try discriminate H; apply mkcall_ok in H; destruct H as [H _]; rewrite H; reflexivity.
+
+(* the device of a built call is the device of the selected entry *)
+Lemma conv_sel k g prm cs : conv_g k g prm = SOk cs -> exists e, sel_entry k g prm = SOk e /\ fst cs = snd e.
+Proof.
+  intros H. destruct k, g; cbn [conv_g sel_entry] in H |- *; try discriminate H;
+    unfold sky130_call, gf180_call, asap7_call, sample_call in H; step_bind H;
+    (eexists; split; [reflexivity|]); fin_call H.
+Qed.
+
+Lemma find_filter {A} (f : A -> bool) l : find f l = match filter f l with [] => None | x :: _ => Some x end.
+Proof. induction l as [|a l IH]; cbn; [reflexivity|]. destruct (f a); [reflexivity|exact IH]. Qed.
+
+Lemma of_opt_ok {A} (o : option A) e a : of_opt o e = SOk a -> o = Some a.
+Proof. destruct o; cbn; intros H; inversion H; reflexivity. Qed.
+
+Lemma get_exact_sound tbl m e : get_exact tbl m = SOk e -> In e tbl /\ exists s, m = Some s /\ strs_eqb (fst e) [s] = true.
+Proof.
+  unfold get_exact. destruct m as [s|]; [|discriminate]. intros H. apply of_opt_ok in H. apply find_some in H.
+  destruct H as [H1 H2]. split; [exact H1|]. exists s. auto.
+Qed.
+
+Lemma subset_sound tbl prm e : In e (subset tbl (triple prm)) ->
+  In e tbl /\ mem (pm_tp prm) (fst e) = true /\ mem (pm_fam prm) (fst e) = true /\ mem (pm_vth prm) (fst e) = true.
+Proof.
+  unfold subset, triple. rewrite filter_In. cbn [forallb]. intros [H1 H2].
+  apply andb_true_iff in H2. destruct H2 as [A H2]. apply andb_true_iff in H2. destruct H2 as [B H2].
+  apply andb_true_iff in H2. destruct H2 as [C _]. auto.
+Qed.
+
+Lemma mos_sound tbl prm e :
+  (match pm_model prm with
+   | Some m => by_model tbl m
+   | None => match subset tbl (triple prm) with [] => SErr ENoDevice | x :: _ => SOk x end
+   end = SOk e \/
+   match pm_model prm with
+   | Some m => by_model tbl m
+   | None => match subset tbl (triple prm) with [] => SErr ENoDevice | [x] => SOk x | _ => SErr EAmbiguous end
+   end = SOk e) ->
+  In e tbl /\ match pm_model prm with
+              | Some m => mem m (key_names (fst e))
+              | None => mem (pm_tp prm) (fst e) && mem (pm_fam prm) (fst e) && mem (pm_vth prm) (fst e)
+              end = true.
+Proof.
+  destruct (pm_model prm) as [m|].
+  - intros [H|H]; unfold by_model in H; apply of_opt_ok in H; apply find_some in H; exact H.
+  - intros H. assert (I : In e (subset tbl (triple prm))).
+    { destruct (subset tbl (triple prm)) as [|x [|y r]]; destruct H as [H|H]; try discriminate H; inversion H; subst; cbn; auto. }
+    apply subset_sound in I. destruct I as [A [B [C D]]]. rewrite B, C, D. auto.
+Qed.
+
+(* model => spec: the selected entry is in the PDK's table and satisfies the request *)
+Lemma sel_sound k g prm e : sel_entry k g prm = SOk e -> (k = Sample -> mem (pm_tp prm) mos_types = true) ->
+  In e (table k g) /\ satisfies k g prm e = true.
+Proof.
+  intros H HS. destruct k, g; cbn [sel_entry] in H; try discriminate H; cbn [table satisfies];
+    try (apply get_exact_sound in H; destruct H as [H1 [s [H2 H3]]]; rewrite H2; auto; fail).
+  - (* Sample *) apply of_opt_ok in H. apply find_some in H. destruct H as [H1 H2]. split; [exact H1|].
+    specialize (HS eq_refl). unfold mos_types in HS. apply mem_In in HS. cbn [In] in HS.
+    destruct HS as [HS|[HS|[]]]; rewrite <- HS in *; exact H2.
+  - (* Sky130 Mos *) unfold sky_mos_module in H. apply (mos_sound sky130_xtors). left. exact H.
+  - (* Gf180 Mos *) unfold gf_mos_module in H. apply (mos_sound gf180_xtors). right. exact H.
+  - (* Asap7 *) apply of_opt_ok in H. apply find_some in H. exact H.
+Qed.
+
+(* spec => model *)
+Lemma filter_ext' {A} (f g : A -> bool) l : (forall a, f a = g a) -> filter f l = filter g l.
+Proof. intros H. induction l as [|a l IH]; cbn; [reflexivity|]. rewrite H, IH. reflexivity. Qed.
+
+Lemma filter_false {A} (l : list A) : filter (fun _ => false) l = [].
+Proof. induction l; auto. Qed.
+
+Ltac unify_filters t :=
+  let F := fresh "F" in
+  match goal with |- context[filter ?f t] => set (F := filter f t) end;
+  repeat match goal with |- context[filter ?f t] => change (filter f t) with F end;
+  destruct F as [|? [|? ?]].
+
+Lemma get_exact_complete tbl mo :
+  match filter (fun e : entry => match mo with Some m => strs_eqb (fst e) [m] | None => false end) tbl with
+  | [] => get_exact tbl mo = SErr ENoDevice
+  | e :: _ => get_exact tbl mo = SOk e
+  end.
+Proof.
+  destruct mo as [m|]; unfold get_exact.
+  - induction tbl as [|a tbl IH]; cbn [filter find]; [reflexivity|]. destruct (strs_eqb (fst a) [m]); [reflexivity|exact IH].
+  - rewrite filter_false. reflexivity.
+Qed.
+
+Lemma by_model_complete tbl m :
+  match filter (fun e : entry => mem m (key_names (fst e))) tbl with
+  | [] => by_model tbl m = SErr ENoDevice
+  | e :: _ => by_model tbl m = SOk e
+  end.
+Proof.
+  unfold by_model. induction tbl as [|a tbl IH]; cbn [filter find]; [reflexivity|].
+  destruct (mem m (key_names (fst a))); [reflexivity|exact IH].
+Qed.
+
+Lemma subset_eq tbl prm :
+  subset tbl (triple prm) = filter (fun e : entry => mem (pm_tp prm) (fst e) && mem (pm_fam prm) (fst e) && mem (pm_vth prm) (fst e)) tbl.
+Proof. unfold subset, triple. apply filter_ext'. intros a. cbn [forallb]. rewrite andb_true_r, andb_assoc. reflexivity. Qed.
+
+Lemma sel_complete k g prm : k <> Sample -> (exists p, group_of k p = Some g) ->
+  match candidates k g prm with
+  | [] => sel_entry k g prm = SErr ENoDevice
+  | [e] => sel_entry k g prm = SOk e
+  | e :: _ :: _ =>
+      match k, g, pm_model prm with
+      | Gf180, GMos, None => sel_entry k g prm = SErr EAmbiguous
+      | _, _, _ => sel_entry k g prm = SOk e                  (* first match in table order *)
+      end
+  end.
+Proof.
+  intros HK [p HG]. unfold candidates.
+  destruct k; [congruence| | |]; destruct g; try (destruct p; discriminate HG); cbn [table sel_entry];
+    try (match goal with |- context[get_exact ?t _] => pose proof (get_exact_complete t (pm_model prm)) as G; revert G; unify_filters t; intros G; exact G end).
+  - (* Sky130 Mos *) unfold sky_mos_module. destruct (pm_model prm) as [m|] eqn:M.
+    + pose proof (by_model_complete sky130_xtors m) as G. unfold satisfies. rewrite M. revert G. unify_filters sky130_xtors; intros G; exact G.
+    + rewrite subset_eq. unfold satisfies. rewrite M. unify_filters sky130_xtors; reflexivity.
+  - (* Gf180 Mos *) unfold gf_mos_module. destruct (pm_model prm) as [m|] eqn:M.
+    + pose proof (by_model_complete gf180_xtors m) as G. unfold satisfies. rewrite M. revert G. unify_filters gf180_xtors; intros G; exact G.
+    + rewrite subset_eq. unfold satisfies. rewrite M. unify_filters gf180_xtors; reflexivity.
+  - (* Asap7 *) rewrite find_filter. unify_filters asap7_mos_modules; reflexivity.
+Qed.
